@@ -154,6 +154,14 @@ def type_pairs(tier):
                 if t != "P0" and abs(n - m) > 1 and tier != "thorough":
                     continue
                 pairs.append(("W%d:%s" % (n, t), "W%d:%s" % (m, t)))
+    # larger lengths (short-circuit paths grow linearly; base relations are uninterpreted, so these stay cheap): a comparison that
+    # looks at a prefix only, in blocks, or mishandles a length difference far from zero shows here
+    big = [(8, 8), (9, 8), (16, 16), (17, 17), (17, 16), (33, 33), (64, 64), (65, 64)] + ([(128, 128), (257, 257), (257, 256)] if tier == "thorough" else [])
+    for (n, m) in big:
+        pairs.append(("W%d:P0" % n, "W%d:P0" % m))
+        pairs.append(("PN%d" % n, "PN%d" % m))
+    for (n, m) in [(8, 8), (17, 17), (33, 33)]:
+        pairs.append(("W%d:P1" % n, "W%d:P1" % m))
     return pairs
 
 
